@@ -71,11 +71,17 @@ func parserRequestURL(c *Client, req *Request) error {
 		}
 	}
 
-	// Set path parameters from the request and client.
-	req.path.VisitAll(func(key, val string) {
-		uri = strings.ReplaceAll(uri, ":"+key, val)
-	})
-	c.path.VisitAll(func(key, val string) {
+	// Set path parameters from the request and client: a request-level parameter takes precedence over a
+	// client-level one of the same name, and both levels are substituted in one pass, longest name first,
+	// so that ":idx" of one level is never pre-empted by ":id" of the other.
+	params := make(PathParam, len(*c.path)+len(*req.path))
+	for key, val := range *c.path {
+		params[key] = val
+	}
+	for key, val := range *req.path {
+		params[key] = val
+	}
+	params.VisitAll(func(key, val string) {
 		uri = strings.ReplaceAll(uri, ":"+key, val)
 	})
 
